@@ -331,4 +331,323 @@ theorem Runner.whole {run : RState → Target → List Entry → Run} {eff : Tar
       rw [he] at cont
       exact cont ho hks (by simpa [Eff.result] using hk) rfl
 
+/-! ### 4. the worker loop with DB selection, over any runner
+
+  `runWG run` is `rdbReplay` / `rdbReplayBisync` (= `runWorker`, see
+  `runWorker_is_runWG_*`): SELECT when the entry's DB differs from the
+  connection's, then one step of `run`; it returns the run and the DB the
+  connection is left in. -/
+
+def runWG (run : RState → Target → List Entry → Run) : Nat → RState → Target → List Entry → Run × Nat
+  | cur, st, t, [] => ({ st := st, tgt := t }, cur)
+  | cur, st, t, e :: rest =>
+    let sel : List Req := if e.db ≥ 0 ∧ e.db.toNat ≠ cur then [Req.select e.db.toNat] else []
+    let cur' := if e.db ≥ 0 then e.db.toNat else cur
+    let r1 := run st (applyReqs t sel) [e]
+    if r1.out = .ok then
+      let w := runWG run cur' r1.st r1.tgt rest
+      ({ reqs := sel ++ r1.reqs ++ w.1.reqs, out := w.1.out, st := w.1.st, tgt := w.1.tgt }, w.2)
+    else ({ reqs := sel ++ r1.reqs, out := r1.out, st := r1.st, tgt := r1.tgt }, cur')
+
+/-- continue a worker run -/
+def wResume (w : Run × Nat) (next : Nat → RState → Target → Run × Nat) : Run × Nat :=
+  if w.1.out = .ok then
+    ({ reqs := w.1.reqs ++ (next w.2 w.1.st w.1.tgt).1.reqs, out := (next w.2 w.1.st w.1.tgt).1.out,
+       st := (next w.2 w.1.st w.1.tgt).1.st, tgt := (next w.2 w.1.st w.1.tgt).1.tgt }, (next w.2 w.1.st w.1.tgt).2)
+  else w
+
+theorem runWG_split (run : RState → Target → List Entry → Run) :
+    ∀ (a b : List Entry) (cur : Nat) (st : RState) (t : Target),
+      runWG run cur st t (a ++ b) = wResume (runWG run cur st t a) (fun c st' t' => runWG run c st' t' b)
+  | [], b, cur, st, t => by simp [runWG, wResume]
+  | e :: a, b, cur, st, t => by
+    have ih := runWG_split run a b
+    simp only [List.cons_append, runWG]
+    generalize (if e.db ≥ 0 ∧ e.db.toNat ≠ cur then [Req.select e.db.toNat] else []) = sel
+    generalize (if e.db ≥ 0 then e.db.toNat else cur) = cur'
+    generalize run st (applyReqs t sel) [e] = r1
+    by_cases h1 : r1.out = .ok
+    · simp only [h1, if_true, ih]
+      generalize runWG run cur' r1.st r1.tgt a = w
+      unfold wResume
+      by_cases h2 : w.1.out = .ok
+      · simp [h2]
+      · simp [h2]
+    · simp [h1, wResume]
+
+theorem Run.eta (r : Run) : ({ reqs := r.reqs, out := r.out, st := r.st, tgt := r.tgt } : Run) = r := rfl
+
+/-- entries of the DB the connection is in: no SELECT, the worker loop is the runner -/
+theorem Runner.runWG_sameDb {run : RState → Target → List Entry → Run} {eff : Target → KGroup → Eff} {good : KGroup → Prop}
+    (R : Runner run eff good) (d : Nat) :
+    ∀ (es : List Entry) (st : RState) (t : Target), (∀ e ∈ es, e.db = Int.ofNat d) →
+      runWG run d st t es = (run st t es, d)
+  | [], st, t, _ => by simp [runWG, R.nil]
+  | e :: es, st, t, h => by
+    have he : e.db = Int.ofNat d := h e (List.mem_cons_self ..)
+    have hsel : (if e.db ≥ 0 ∧ e.db.toNat ≠ d then [Req.select e.db.toNat] else []) = [] := by rw [he]; simp
+    have hcur : (if e.db ≥ 0 then e.db.toNat else d) = d := by rw [he]; simp
+    have ih := fun st' t' => Runner.runWG_sameDb R d es st' t' (fun x hx => h x (List.mem_cons_of_mem _ hx))
+    have hs := R.split [e] es st t
+    simp only [List.singleton_append] at hs
+    simp only [runWG, hsel, hcur, applyReqs, List.foldl_nil, List.nil_append, ih, hs, Run.resume]
+    split <;> rfl
+
+/-- the chunks of one key, all of DB `d`, met by a connection that is in DB `c`:
+    SELECT if `d ≠ c`, then the runner on the group -/
+theorem Runner.runWG_group {run : RState → Target → List Entry → Run} {eff : Target → KGroup → Eff} {good : KGroup → Prop}
+    (R : Runner run eff good) (c d : Nat) (st : RState) (t : Target) (e0 : Entry) (rest : List Entry)
+    (h : ∀ e ∈ e0 :: rest, e.db = Int.ofNat d) :
+    runWG run c st t (e0 :: rest) =
+      ({ reqs := (if d ≠ c then [Req.select d] else []) ++
+            (run st (applyReqs t (if d ≠ c then [Req.select d] else [])) (e0 :: rest)).reqs,
+         out := (run st (applyReqs t (if d ≠ c then [Req.select d] else [])) (e0 :: rest)).out,
+         st := (run st (applyReqs t (if d ≠ c then [Req.select d] else [])) (e0 :: rest)).st,
+         tgt := (run st (applyReqs t (if d ≠ c then [Req.select d] else [])) (e0 :: rest)).tgt }, d) := by
+    have he : e0.db = Int.ofNat d := h e0 (List.mem_cons_self ..)
+    have hsel : (if e0.db ≥ 0 ∧ e0.db.toNat ≠ c then [Req.select e0.db.toNat] else [])
+        = (if d ≠ c then [Req.select d] else []) := by rw [he]; simp
+    have hcur : (if e0.db ≥ 0 then e0.db.toNat else c) = d := by rw [he]; simp
+    have hrest := fun st' t' => Runner.runWG_sameDb R d rest st' t' (fun x hx => h x (List.mem_cons_of_mem _ hx))
+    have hs := R.split [e0] rest st (applyReqs t (if d ≠ c then [Req.select d] else []))
+    simp only [List.singleton_append] at hs
+    simp only [runWG, hsel, hcur, hrest, hs, Run.resume]
+    generalize (if d ≠ c then [Req.select d] else []) = sel
+    generalize run st (applyReqs t sel) [e0] = r1
+    by_cases h1 : r1.out = .ok <;> simp [h1, List.append_assoc]
+
+theorem applySel (t : Target) (c d : Nat) (hc : t.cur = c) :
+    (applyReqs t (if d ≠ c then [Req.select d] else [])).cur = d ∧
+    (applyReqs t (if d ≠ c then [Req.select d] else [])).ks = t.ks ∧
+    (applyReqs t (if d ≠ c then [Req.select d] else [])).now = t.now ∧
+    (applyReqs t (if d ≠ c then [Req.select d] else [])).bad = t.bad := by
+  by_cases h : d = c
+  · subst h; simp [applyReqs, hc]
+  · simp [h, applyReqs, applyReq]
+
+/-! the whole snapshot over several DBs: a key is a cell (db, key) -/
+
+def KGroup.dbn (g : KGroup) : Nat := g.1.db.toNat
+def KGroup.cell (g : KGroup) : Nat × Bytes := (g.dbn, g.key)
+/-- all chunks of the key carry the key's (non-negative) DB -/
+def KGroup.oneDb (g : KGroup) : Prop := ∀ e ∈ g.entries, e.db = Int.ofNat g.dbn
+/-- the target as a connection that is in DB `d` sees it -/
+def Target.inDb (t : Target) (d : Nat) : Target := { t with cur := d }
+
+theorem Runner.wholeW {run : RState → Target → List Entry → Run} {eff : Target → KGroup → Eff} {good : KGroup → Prop}
+    (R : Runner run eff good) :
+    ∀ (gs : List KGroup) (c : Nat) (st : RState) (t : Target), t.cur = c → (∀ g ∈ gs, good g ∧ g.oneDb) →
+      (gs.map KGroup.cell).Nodup →
+      (∀ d k, (d, k) ∉ gs.map KGroup.cell → (runWG run c st t (flat gs)).1.tgt.ks d k = t.ks d k) ∧
+      ((∀ g ∈ gs, (eff (t.inDb g.dbn) g).isStop = false) →
+        (runWG run c st t (flat gs)).1.out = .ok ∧
+        ∀ g ∈ gs, (runWG run c st t (flat gs)).1.tgt.ks g.dbn g.key
+          = (eff (t.inDb g.dbn) g).result (t.ks g.dbn g.key)) ∧
+      (∀ pre g post out, gs = pre ++ g :: post → (∀ p ∈ pre, (eff (t.inDb p.dbn) p).isStop = false) →
+        eff (t.inDb g.dbn) g = .stop out →
+        (runWG run c st t (flat gs)).1.out = out ∧
+        (∀ p ∈ pre, (runWG run c st t (flat gs)).1.tgt.ks p.dbn p.key
+          = (eff (t.inDb p.dbn) p).result (t.ks p.dbn p.key)) ∧
+        (∀ d k, (d, k) ∉ pre.map KGroup.cell → (runWG run c st t (flat gs)).1.tgt.ks d k = t.ks d k))
+  | [], c, st, t, _, _, _ => by
+    refine ⟨?_, ?_, ?_⟩
+    · intro d k _; simp [flat, runWG]
+    · intro _; simp [flat, runWG]
+    · intro pre g post out h; simp at h
+  | g :: gs, c, st, t, hc, hgood, hnd => by
+    have hg : good g := (hgood g (List.mem_cons_self ..)).1
+    have hdb : ∀ e ∈ g.1 :: g.2, e.db = Int.ofNat g.dbn := (hgood g (List.mem_cons_self ..)).2
+    have hgs : ∀ x ∈ gs, good x ∧ x.oneDb := fun x hx => hgood x (List.mem_cons_of_mem _ hx)
+    have hnd' : (gs.map KGroup.cell).Nodup := (List.nodup_cons.mp (by simpa using hnd)).2
+    have hnotin : g.cell ∉ gs.map KGroup.cell := (List.nodup_cons.mp (by simpa using hnd)).1
+    obtain ⟨s1, s2, s3, s4⟩ := applySel t c g.dbn hc
+    have hW := R.runWG_group c g.dbn st t g.1 g.2 hdb
+    rw [flat_cons, runWG_split]
+    show _ ∧ _ ∧ _
+    have hent : g.entries = g.1 :: g.2 := rfl
+    rw [hent, hW]
+    generalize applyReqs t (if g.dbn ≠ c then [Req.select g.dbn] else []) = t1 at s1 s2 s3 s4
+    generalize (if g.dbn ≠ c then [Req.select g.dbn] else []) = sel
+    obtain ⟨icur, inow, ibad⟩ := R.inv (g.1 :: g.2) st t1
+    have heffg : eff t1 g = eff (t.inDb g.dbn) g := by
+      refine R.loc (t.inDb g.dbn) t1 g s3 s4 ?_
+      simp only [Target.get, Target.inDb, s1, s2]
+    have hk := R.keep st t1 g hg
+    have hs := R.set st t1 g
+    have hst := R.stop st t1 g
+    rw [heffg, hent] at hk hst
+    simp only [heffg, hent] at hs
+    generalize run st t1 (g.1 :: g.2) = r1 at icur inow ibad hk hs hst
+    have cont : r1.out = .ok →
+        (∀ d k, ¬ (d = g.dbn ∧ k = g.key) → r1.tgt.ks d k = t.ks d k) →
+        r1.tgt.ks g.dbn g.key = (eff (t.inDb g.dbn) g).result (t.ks g.dbn g.key) →
+        (eff (t.inDb g.dbn) g).isStop = false →
+        (∀ d k, (d, k) ∉ (g :: gs).map KGroup.cell →
+          (wResume ({ reqs := sel ++ r1.reqs, out := r1.out, st := r1.st, tgt := r1.tgt }, g.dbn)
+            fun c st' t' => runWG run c st' t' (flat gs)).1.tgt.ks d k = t.ks d k) ∧
+        ((∀ x ∈ g :: gs, (eff (t.inDb x.dbn) x).isStop = false) →
+          (wResume ({ reqs := sel ++ r1.reqs, out := r1.out, st := r1.st, tgt := r1.tgt }, g.dbn)
+            fun c st' t' => runWG run c st' t' (flat gs)).1.out = .ok ∧
+          ∀ x ∈ g :: gs, (wResume ({ reqs := sel ++ r1.reqs, out := r1.out, st := r1.st, tgt := r1.tgt }, g.dbn)
+            fun c st' t' => runWG run c st' t' (flat gs)).1.tgt.ks x.dbn x.key
+            = (eff (t.inDb x.dbn) x).result (t.ks x.dbn x.key)) ∧
+        (∀ pre x post out, g :: gs = pre ++ x :: post → (∀ p ∈ pre, (eff (t.inDb p.dbn) p).isStop = false) →
+          eff (t.inDb x.dbn) x = .stop out →
+          (wResume ({ reqs := sel ++ r1.reqs, out := r1.out, st := r1.st, tgt := r1.tgt }, g.dbn)
+            fun c st' t' => runWG run c st' t' (flat gs)).1.out = out ∧
+          (∀ p ∈ pre, (wResume ({ reqs := sel ++ r1.reqs, out := r1.out, st := r1.st, tgt := r1.tgt }, g.dbn)
+            fun c st' t' => runWG run c st' t' (flat gs)).1.tgt.ks p.dbn p.key
+            = (eff (t.inDb p.dbn) p).result (t.ks p.dbn p.key)) ∧
+          (∀ d k, (d, k) ∉ pre.map KGroup.cell →
+            (wResume ({ reqs := sel ++ r1.reqs, out := r1.out, st := r1.st, tgt := r1.tgt }, g.dbn)
+              fun c st' t' => runWG run c st' t' (flat gs)).1.tgt.ks d k = t.ks d k)) := by
+      intro F1 F2 F3 hns
+      simp only [wResume, F1, if_true]
+      obtain ⟨ih1, ih2, ih3⟩ := Runner.wholeW R gs g.dbn r1.st r1.tgt (icur.trans s1) hgs hnd'
+      have hne : ∀ x ∈ gs, ¬ (x.dbn = g.dbn ∧ x.key = g.key) := by
+        intro x hx h
+        apply hnotin
+        have : x.cell = g.cell := by simp only [KGroup.cell, h.1, h.2]
+        rw [← this]; exact List.mem_map_of_mem (f := KGroup.cell) hx
+      have hks : ∀ x ∈ gs, r1.tgt.ks x.dbn x.key = t.ks x.dbn x.key := fun x hx => F2 _ _ (hne x hx)
+      have heff : ∀ x ∈ gs, eff (r1.tgt.inDb x.dbn) x = eff (t.inDb x.dbn) x := by
+        intro x hx
+        refine R.loc (t.inDb x.dbn) (r1.tgt.inDb x.dbn) x (inow.trans s3) (ibad.trans s4) ?_
+        simp only [Target.get, Target.inDb]; exact hks x hx
+      have hnotin' : (g.dbn, g.key) ∉ gs.map KGroup.cell := hnotin
+      refine ⟨?_, ?_, ?_⟩
+      · intro d k hdk
+        rw [ih1 d k (fun h => hdk (List.mem_cons_of_mem _ (by simpa using h)))]
+        exact F2 d k (fun h => hdk (by simp [KGroup.cell, h.1, h.2]))
+      · intro hall
+        obtain ⟨o1, o2⟩ := ih2 (fun x hx => by rw [heff x hx]; exact hall x (List.mem_cons_of_mem _ hx))
+        refine ⟨o1, ?_⟩
+        intro x hx
+        rcases List.mem_cons.mp hx with rfl | hx
+        · rw [ih1 _ _ hnotin']; exact F3
+        · rw [o2 x hx, heff x hx, hks x hx]
+      · intro pre x post out hsplit hpre hx
+        cases pre with
+        | nil =>
+          simp only [List.nil_append, List.cons.injEq] at hsplit
+          obtain ⟨rfl, _⟩ := hsplit
+          rw [hx] at hns; simp [Eff.isStop] at hns
+        | cons p pre' =>
+          simp only [List.cons_append, List.cons.injEq] at hsplit
+          obtain ⟨rfl, hgs'⟩ := hsplit
+          have hxin : x ∈ gs := by rw [hgs']; simp
+          have hprein : ∀ q ∈ pre', q ∈ gs := by intro q hq; rw [hgs']; simp [hq]
+          obtain ⟨o1, o2, o3⟩ := ih3 pre' x post out hgs'
+            (fun q hq => by rw [heff q (hprein q hq)]; exact hpre q (List.mem_cons_of_mem _ hq))
+            (by rw [heff x hxin]; exact hx)
+          have hnotpre : (g.dbn, g.key) ∉ pre'.map KGroup.cell := by
+            intro h
+            obtain ⟨y, hy, hye⟩ := List.mem_map.mp h
+            exact hnotin' (hye ▸ List.mem_map_of_mem (f := KGroup.cell) (hprein y hy))
+          refine ⟨o1, ?_, ?_⟩
+          · intro q hq
+            rcases List.mem_cons.mp hq with rfl | hq
+            · rw [o3 _ _ hnotpre]; exact F3
+            · rw [o2 q hq, heff q (hprein q hq), hks q (hprein q hq)]
+          · intro d k hdk
+            rw [o3 d k (fun h => hdk (List.mem_cons_of_mem _ (by simpa using h)))]
+            exact F2 d k (fun h => hdk (by simp [KGroup.cell, h.1, h.2]))
+    have F2of : (∀ d k, ¬ (d = t1.cur ∧ k = g.key) → r1.tgt.ks d k = t1.ks d k) →
+        ∀ d k, ¬ (d = g.dbn ∧ k = g.key) → r1.tgt.ks d k = t.ks d k := by
+      intro h d k hdk
+      rw [h d k (by rw [s1]; exact hdk), s2]
+    cases he : eff (t.inDb g.dbn) g with
+    | stop out =>
+      obtain ⟨hne, hout, hks⟩ := hst out hg he
+      have hres : (wResume ({ reqs := sel ++ r1.reqs, out := r1.out, st := r1.st, tgt := r1.tgt }, g.dbn)
+          fun c st' t' => runWG run c st' t' (flat gs))
+          = ({ reqs := sel ++ r1.reqs, out := r1.out, st := r1.st, tgt := r1.tgt }, g.dbn) := by
+        simp [wResume, hout, hne]
+      rw [hres]
+      have hks' : ∀ d k, r1.tgt.ks d k = t.ks d k := fun d k => by rw [hks d k, s2]
+      refine ⟨fun d k _ => hks' d k, ?_, ?_⟩
+      · intro h; have := h g (List.mem_cons_self ..); simp [he, Eff.isStop] at this
+      · intro pre x post out' hsplit hpre hx
+        cases pre with
+        | nil =>
+          simp only [List.nil_append, List.cons.injEq] at hsplit
+          obtain ⟨rfl, _⟩ := hsplit
+          rw [he] at hx; cases hx
+          exact ⟨hout, by simp, fun d k _ => hks' d k⟩
+        | cons p pre' =>
+          simp only [List.cons_append, List.cons.injEq] at hsplit
+          obtain ⟨rfl, _⟩ := hsplit
+          have := hpre g (List.mem_cons_self ..)
+          simp [he, Eff.isStop] at this
+    | keep =>
+      obtain ⟨ho, hks⟩ := hk he
+      rw [he] at cont
+      refine cont ho (fun d k _ => by rw [hks d k, s2]) ?_ rfl
+      simp only [Eff.result]
+      rw [hks, s2]
+    | set o =>
+      obtain ⟨ho, hkk, hks⟩ := hs o hg he
+      rw [he] at cont
+      refine cont ho (F2of hks) ?_ rfl
+      simp only [Eff.result]
+      rw [← hkk]; simp only [Target.get, icur, s1]
+
+/-! `runWorker` (the function the correspondence harness compares the real worker loops with) is `runWG` -/
+
+theorem workerTarget_cons (t : Target) (l : List Req × Outcome) (ls : List (List Req × Outcome)) :
+    workerTarget t (l :: ls) = workerTarget (applyReqs t l.1) ls := rfl
+
+theorem runWorker_is_runWG_plain (pol : Policy) (cfg : Cfg) :
+    ∀ (es : List Entry) (cur : Nat) (st : RState) (t : Target),
+      (runWorker false pol cfg cur st t es).flatMap (·.1) = (runWG (runPlain pol cfg) cur st t es).1.reqs ∧
+      workerTarget t (runWorker false pol cfg cur st t es) = (runWG (runPlain pol cfg) cur st t es).1.tgt ∧
+      lastOut (runWorker false pol cfg cur st t es) = (runWG (runPlain pol cfg) cur st t es).1.out
+  | [], cur, st, t => by simp [runWorker, runWG, workerTarget, lastOut]
+  | e :: rest, cur, st, t => by
+    unfold runWorker runWG
+    simp only [Bool.false_eq_true, if_false]
+    generalize (if e.db ≥ 0 ∧ e.db.toNat ≠ cur then [Req.select e.db.toNat] else []) = sel
+    generalize (if e.db ≥ 0 then e.db.toNat else cur) = cur'
+    cases hr : replay pol cfg st (viewOf (applyReqs t sel) e) e with
+    | mk rs p =>
+      obtain ⟨out, st'⟩ := p
+      have ih := runWorker_is_runWG_plain pol cfg rest cur' st' (applyReqs (applyReqs t sel) rs)
+      cases out with
+      | ok =>
+        simp only [runPlain, hr, List.append_nil, if_true, List.flatMap_cons, workerTarget_cons,
+          applyReqs_append, ih, List.append_assoc, true_and]
+        cases hrw : runWorker false pol cfg cur' st' (applyReqs (applyReqs t sel) rs) rest with
+        | nil => rw [hrw] at ih; simp [lastOut, ← ih.2.2]
+        | cons l ls => rw [hrw] at ih; simp [lastOut, ← ih.2.2]
+      | errExists => simp [runPlain, hr, workerTarget, applyReqs_append, lastOut]
+      | errModule => simp [runPlain, hr, workerTarget, applyReqs_append, lastOut]
+      | errBad => simp [runPlain, hr, workerTarget, applyReqs_append, lastOut]
+
+theorem runWorker_is_runWG_bisync (pol : Policy) (cfg : Cfg) :
+    ∀ (es : List Entry) (cur : Nat) (st : RState) (t : Target),
+      (runWorker true pol cfg cur st t es).flatMap (·.1) = (runWG (runBisync pol cfg) cur st t es).1.reqs ∧
+      workerTarget t (runWorker true pol cfg cur st t es) = (runWG (runBisync pol cfg) cur st t es).1.tgt ∧
+      lastOut (runWorker true pol cfg cur st t es) = (runWG (runBisync pol cfg) cur st t es).1.out
+  | [], cur, st, t => by simp [runWorker, runWG, workerTarget, lastOut]
+  | e :: rest, cur, st, t => by
+    unfold runWorker runWG
+    simp only [if_true]
+    generalize (if e.db ≥ 0 ∧ e.db.toNat ≠ cur then [Req.select e.db.toNat] else []) = sel
+    generalize (if e.db ≥ 0 then e.db.toNat else cur) = cur'
+    cases hr : buildUnit pol cfg st (viewOf (applyReqs t sel) e) e with
+    | mk direct p =>
+      obtain ⟨cmds, out, st'⟩ := p
+      generalize hrs : (direct ++ if out = BOutcome.unit then execUnit cmds else []) = rs
+      have ih := runWorker_is_runWG_bisync pol cfg rest cur' st' (applyReqs (applyReqs t sel) rs)
+      cases hb : bOut out with
+      | ok =>
+        simp only [runBisync, hr, hrs, hb, List.append_nil, if_true, List.flatMap_cons, workerTarget_cons,
+          applyReqs_append, ih, List.append_assoc, true_and]
+        cases hrw : runWorker true pol cfg cur' st' (applyReqs (applyReqs t sel) rs) rest with
+        | nil => rw [hrw] at ih; simp [lastOut, ← ih.2.2]
+        | cons l ls => rw [hrw] at ih; simp [lastOut, ← ih.2.2]
+      | errExists => simp [runBisync, hr, hrs, hb, workerTarget, applyReqs_append, lastOut]
+      | errModule => simp [runBisync, hr, hrs, hb, workerTarget, applyReqs_append, lastOut]
+      | errBad => simp [runBisync, hr, hrs, hb, workerTarget, applyReqs_append, lastOut]
+
 end GunYu.Restore
